@@ -20,6 +20,8 @@ pub mod c14;
 pub mod c15;
 pub mod c16;
 pub mod c17;
+pub mod c18;
+pub mod c20;
 pub mod c06;
 pub mod codes;
 pub mod c07;
@@ -43,6 +45,8 @@ pub fn run(prop: &str, ctx: &Ctx) -> Option<Report> {
         "C15" => c15::run(ctx),
         "C16" => c16::run(ctx),
         "C17" => c17::run(ctx),
+        "C18" => c18::run(ctx),
+        "C20" => c20::run(ctx),
         "C06" => c06::run(ctx),
         "C07" => c07::run(ctx),
         "C08" => c08::run(ctx),
@@ -67,6 +71,8 @@ pub fn replay(prop: &str, case: &str, rep: &mut Report) -> bool {
         "C15" => c15::replay(case, rep),
         "C16" => c16::replay(case, rep),
         "C17" => c17::replay(case, rep),
+        "C18" => c18::replay(case, rep),
+        "C20" => c20::replay(case, rep),
         "C06" => c06::replay(case, rep),
         "C07" => c07::replay(case, rep),
         "C08" => c08::replay(case, rep),
